@@ -32,7 +32,7 @@ var run *h.Run
 var allOps = []string{"Login", "NewProxy", "Ping", "NewWorkConn", "NewUserConn", "CloseProxy"}
 
 // outcomes a stub can be scripted with
-var outcomes = []string{"accept", "accept", "accept", "accept", "modify", "modify", "modify", "reject", "http500", "http404", "reset", "badjson", "empty200", "reject-with-content", "accept-then-garbage", "accept-then-second-object", "accept-truncated"}
+var outcomes = []string{"accept", "accept", "accept", "accept", "modify", "modify", "modify", "reject", "http500", "http404", "reset", "badjson", "empty200", "reject-with-content", "reject-unchanged", "accept-then-garbage", "accept-then-second-object", "accept-truncated"}
 
 func refuses(o string) bool { return o != "accept" && o != "modify" }
 
@@ -114,6 +114,8 @@ func stub(w http.ResponseWriter, r *http.Request) {
 		writeJSON(w, map[string]any{"reject": false, "unchange": false, "content": modify(cs, pi, req.Op, req.Content)})
 	case "reject":
 		writeJSON(w, map[string]any{"reject": true, "reject_reason": fmt.Sprintf("no-%d", pi)})
+	case "reject-unchanged": // what a plugin that never rewrites content sends when it says no
+		writeJSON(w, map[string]any{"reject": true, "reject_reason": fmt.Sprintf("no-%d", pi), "unchange": true})
 	case "reject-with-content":
 		writeJSON(w, map[string]any{"reject": true, "reject_reason": fmt.Sprintf("no-%d", pi), "unchange": false, "content": modify(cs, pi, req.Op, req.Content)})
 	case "http500": // non-success status with an otherwise perfectly valid "accept" body
